@@ -26,7 +26,13 @@ Proof.
 Qed.
 
 Lemma is_rooted_prefixb : forall s, prefixb [slash] s = is_rooted s.
-Proof. intros [|c s]; [reflexivity|]. cbn. rewrite andb_true_r. reflexivity. Qed.
+Proof. intros [|c s]; [reflexivity|]. cbn [prefixb is_rooted]. rewrite andb_true_r. apply N.eqb_sym. Qed.
+
+Lemma forallb_rev : forall (f : str -> bool) l, forallb f (rev l) = forallb f l.
+Proof.
+  intros f l. induction l as [|x l IH]; [reflexivity|].
+  cbn [rev]. rewrite forallb_app, IH. cbn. rewrite andb_true_r. apply andb_comm.
+Qed.
 
 Lemma comps_nonnil : forall s, comps s <> [].
 Proof. intro s. apply split_on_nonempty. Qed.
@@ -175,7 +181,7 @@ Qed.
 Lemma drop_to_slash_app : forall l t, ~ In slash l -> drop_to_slash (l ++ slash :: t) = slash :: t.
 Proof.
   induction l as [|c l IH]; intros t H.
-  - cbn. rewrite N.eqb_refl. reflexivity.
+  - reflexivity.
   - cbn [app drop_to_slash]. destruct (c =? slash) eqn:E.
     + apply N.eqb_eq in E. exfalso. apply H. left. exact E.
     + apply IH. intro Hin. apply H. right. exact Hin.
@@ -184,6 +190,7 @@ Qed.
 Lemma dir_part_app : forall a b, nochar slash b -> dir_part (a ++ slash :: b) = a ++ [slash].
 Proof.
   intros a b Hb. unfold dir_part. rewrite rev_app_distr. cbn [rev]. rewrite <- app_assoc.
+  change ([slash] ++ rev a) with (slash :: rev a).
   rewrite drop_to_slash_app.
   - cbn [app rev]. rewrite rev_involutive. reflexivity.
   - intro Hin. apply Hb. apply in_rev. exact Hin.
@@ -207,7 +214,7 @@ Lemma stable_elems : forall r st, stable r st = true ->
 Proof.
   intros r st. induction st as [|c st IH]; intro H; [constructor|]. cbn in H.
   destruct (is_normal c) eqn:En.
-  - constructor; [left; reflexivity|apply IH; exact H].
+  - constructor; [left; exact En|apply IH; exact H].
   - apply andb_true_iff in H as [H Hall]. apply andb_true_iff in H as [Hdd _].
     constructor; [right; exact Hdd|].
     clear - Hall. induction st as [|x st IH]; [constructor|]. cbn in Hall.
@@ -259,11 +266,11 @@ Proof.
     apply Forall_app in Hel as [_ Hx]. inversion Hx as [|? ? Hx' _]; subst.
     destruct Hx' as [Hn | Hdd].
     + right. rewrite Est in Hst. pose proof (stable_last_normal _ _ _ Hst Hn) as Hall.
-      rewrite Hcl. cbn [render]. apply normal_path_join; [discriminate|exact Hokl|].
-      rewrite <- (rev_involutive (x :: t)). cbn [rev]. rewrite forallb_rev_ok. exact Hall.
+      cbn [render]. apply normal_path_join; [discriminate|exact Hokl|].
+      rewrite <- forallb_rev. cbn [rev]. exact Hall.
     + apply is_dotdot_eq in Hdd. subst x. destruct t as [|y t].
-      * left. exact Hcl.
-      * exfalso. cbn [render] in Hcl. rewrite Hcl in Hpp.
+      * left. reflexivity.
+      * exfalso. cbn [render] in Hpp.
         change (join_slash ([dot; dot] :: y :: t)) with ([dot; dot] ++ slash :: join_slash (y :: t)) in Hpp.
-        cbn in Hpp. rewrite !N.eqb_refl in Hpp. discriminate.
+        cbn in Hpp. discriminate.
 Qed.
